@@ -19,6 +19,7 @@ import traceback
 HERE = os.path.dirname(os.path.dirname(os.path.abspath(__file__)))
 ALL = ['C%02d' % i for i in range(1, 21)]
 MAX_REPLAYS = 12
+MAX_ITEMISED = 300000   # itemised violations kept in memory per run (a badly broken tree produces millions)
 
 _mod = None
 
@@ -125,7 +126,10 @@ def run_check(pid, tier, opts):
             for k, c in d.get('disabled', {}).items():
                 disabled[k] = disabled.get(k, 0) + c
             for v in d['viol']:
-                viols.append((idx, v))
+                if len(viols) < MAX_ITEMISED:
+                    viols.append((idx, v))
+                else:
+                    tot['overflow'] += 1      # counted, reported as "further violations", never silently dropped
             if time.time() - t0 > cap:
                 capped = True
                 break
